@@ -6,6 +6,7 @@
 package main
 
 import (
+	"encoding/base64"
 	"fmt"
 	"os"
 	"sort"
@@ -340,9 +341,42 @@ func libraryScripts(r *rep.Report) {
 	}
 }
 
+// encodedScripts: an action's `opts.encoding` says how its code is written down ("base64", or
+// "none" / "" for plain text).  It is the same script either way: same value, same failure.
+func encodedScripts(r *rep.Report) {
+	type sc struct{ code, want string }
+	for _, c := range []sc{{"20 + 22", "42"}, {"throw 'boom'", ""}, {"undefinedFn()", ""}, {"'a' + 'b'", "ab"}} {
+		for _, enc := range []string{"none", "", "base64"} {
+			for _, kind := range drv.Kinds {
+				code := c.code
+				if enc == "base64" {
+					code = base64.StdEncoding.EncodeToString([]byte(c.code))
+				}
+				act := map[string]interface{}{"code": code, "opts": map[string]interface{}{"encoding": enc}}
+				got, failed, failure := evalCond(kind, nil, nil, act, nil)
+				r.Case(true, fmt.Sprint("encoded", c.code, enc, kind))
+				r.Count("encoded_script_cases", 1)
+				wit := rep.J{"script": c.code, "encoding": enc, "state": kind, "value": got, "non_complete_nodes": failed, "failure": failure}
+				if c.want == "" {
+					if failed == 0 && failure == "" {
+						r.Violate("", "a throwing script (written with an encoding option) was reported as success", wit)
+					}
+					continue
+				}
+				if failed > 0 || failure != "" {
+					r.Violate("", "a script that finishes within the limit failed: "+failure, wit)
+				} else if got != c.want {
+					r.Violate("", fmt.Sprintf("a finishing script produced %q, expected %q", got, c.want), wit)
+				}
+			}
+		}
+	}
+}
+
 func main() {
 	e := rep.GetEnv()
 	r := rep.New(e)
+	encodedScripts(r)
 	siblingScopes(r)
 	libraryScripts(r)
 	g := gen.New(e.BatchSeed())
